@@ -79,6 +79,29 @@ M = [
 ]
 
 
+# regressions: each "fix:" commit reverted on its own must be reported again (a fixed entry suppresses nothing)
+REVERTS = [
+ ('regress_c13_lambda_finished', 'C13', '9cf7e45'),
+ ('regress_c14_handler_delete_this', 'C14', 'd900239'),
+ ('regress_c14_dtor_no_join', 'C14', '8ed8566'),
+ ('regress_c10_headers_shared', 'C10', 'da5dcee'),
+ ('regress_c09_readbody_spin', 'C09', 'fefe5ca'),
+ ('regress_c09_range_oob', 'C09', '4c10eab'),
+ ('regress_c09_url_bracket', 'C09', '811fe89'),
+ ('regress_c09_query_after_fragment', 'C09', 'e46de63'),
+ ('regress_c09_no_leading_slash', 'C09', 'c79aef6'),
+ ('regress_c11_len64', 'C11', 'b4dfbec'),
+ ('regress_c11_ping_between_fragments', 'C11', 'c9c1716'),
+ ('regress_c18_ini_last_line', 'C18', 'f75028e'),
+ ('regress_c16_array_native', 'C16', '9193a9a'),
+ ('regress_c05_ctrl_chars', 'C05', '92dfc48'),
+ ('regress_c05_bom_probe', 'C05', 'ccb4ff7'),
+ ('regress_c06_slash_in_key', 'C06', 'd8dfa0f'),
+ ('regress_c18_myatof', 'C18', '68f828f'),
+ ('regress_c10_ranges', 'C10', '64a8286'),
+]
+
+
 def read(path):
     return open(path, newline='').read()
 
@@ -111,6 +134,8 @@ def main():
     if not args or args[0] == 'list':
         for m in M:
             print(m[1], m[0])
+        for r in REVERTS:
+            print(r[1], r[0])
         return 0
     sel = [a for a in args[1:] if not a.startswith('--')]
     todo = [m for m in M if not sel or m[0] in sel or m[1] in sel]
@@ -136,6 +161,18 @@ def main():
                 print('      ' + v[:300])
             if rc not in (0, 1):
                 print(out[-1500:])
+        for name, prop, commit in [r for r in REVERTS if not sel or r[0] in sel or r[1] in sel or 'regress' in sel]:
+            diff = subprocess.run(['git', '-C', SRC, 'show', commit, '--', 'include', 'src'], capture_output=True).stdout
+            a = subprocess.run(['git', '-C', REPO, 'apply', '-R'], input=diff)
+            if a.returncode:
+                print('%-40s %s revert does not apply (later fixes touch the same lines)' % (name, prop), flush=True)
+                restore()
+                continue
+            rc, viol, dt, out = run_check(prop)
+            restore()
+            print('%-40s %s exit=%d %.0fs %s' % (name, prop, rc, dt, 'CAUGHT' if rc == 1 else 'MISSED' if rc == 0 else 'HARNESS-ERROR'), flush=True)
+            for v in viol[:3]:
+                print('      ' + v[:300])
         for name, prop, patch in seeded:
             subprocess.run(['git', '-C', REPO, 'apply', patch], check=True)
             rc, viol, dt, out = run_check(prop)
